@@ -44,7 +44,10 @@ def main(argv):
     if "--shard" in argv:                      # --shard i/n : every n-th catalogue entry, starting at i (for parallel runs)
         i, n = argv[argv.index("--shard") + 1].split("/")
         shard = (int(i), int(n))
-    sel = [a for a in argv if not a.startswith("--") and a not in ("quick", "thorough") and "/" not in a]
+    rounds = None
+    if "--rounds" in argv:                     # --rounds ABCDEF+own : seeds whose id ends in one of the letters, "+own" = own mutants
+        rounds = argv[argv.index("--rounds") + 1]
+    sel = [a for a in argv if not a.startswith("--") and a not in ("quick", "thorough") and "/" not in a and a != rounds]
     rows = []
     bad = 0
     for k, item in enumerate(catalogue()):
@@ -52,6 +55,12 @@ def main(argv):
             continue
         if sel and not any(s in item["name"] for s in sel):
             continue
+        if rounds is not None:
+            own = not item["name"].startswith("seeded/")
+            if own and "+own" not in rounds:
+                continue
+            if not own and item["name"][-1] not in rounds.replace("+own", ""):
+                continue
         tmp = tempfile.mkdtemp(prefix="ecagent-selftest-", dir="/tmp")
         wt = os.path.join(tmp, "r")
         try:
